@@ -97,7 +97,7 @@ def build(wd):
 
 def generate(wd, maxn, types, rep):
     cfg = os.path.join(wd, "c14_gen.cfg")
-    vlib.write_cfg(cfg, spec="GSpec", constants={"MaxN": maxn, "PotrfTypes": set(types)}, constraints=["GEmitC"])
+    vlib.write_cfg(cfg, spec="GSpec", constants={"MaxN": maxn, "PotrfTypes": set(types), "BigSizes": {66}}, constraints=["GEmitC"])
     res = vlib.run_tlc("LapackGen", cfg, "c14_gen", workers=4)
     rep.add_tlc(res)
     cases, seen = [], set()
